@@ -43,8 +43,16 @@ func buildOverlay(extra map[string][]byte) (map[string][]byte, error) {
 		}
 		// only the harness files of the property being checked (zz_verif_<id>*.go) and shared ones (zz_verif_common*.go)
 		base := strings.ToLower(filepath.Base(rel))
-		if overlayProp != "" && !strings.HasPrefix(base, "zz_verif_"+overlayProp) && !strings.HasPrefix(base, "zz_verif_common") {
-			return nil
+		if overlayProp != "" && !strings.HasPrefix(base, "zz_verif_common") {
+			keep := false
+			for _, pr := range strings.Split(overlayProp, ",") {
+				if strings.HasPrefix(base, "zz_verif_"+pr) {
+					keep = true
+				}
+			}
+			if !keep {
+				return nil
+			}
 		}
 		b, err := os.ReadFile(p)
 		if err != nil {
